@@ -266,7 +266,7 @@ fn c11_run(plan: &Plan) -> R<CaseMeta> {
             let before = snapshot_tree(&db);
             let work = scratch.path.join("work");
             std::fs::create_dir_all(&work).expect("harness: mkdir");
-            let script = Script { cfg: Cfg { kt: "String".into(), n: 100, asyn: false, scan: true, verify: false }, asyn: false, cleanup: false, ops: vec![], dump: false };
+            let script = Script { cfg: Cfg { kt: "String".into(), n: 100, asyn: false, scan: true, verify: false }, asyn: false, cleanup: false, ops: vec![], dump: false, pre_create: false };
             let run = run_worker(&db, &work, "loser", &script, ShimMode::Trace, Duration::from_secs(30));
             if run.out.open == "ok" {
                 fail!("exclusive/two-live-handles", "a second process opened the directory while the owner was alive");
